@@ -4,22 +4,15 @@ import "verif/internal/core"
 
 func stub(name string) Rule { return Rule{Name: name, Run: func(c *core.Ctx) {}} }
 
-func Only19(s string) string { return s }
 
 func R05() Rule          { return stub("R05") }
 func R10() Rule          { return stub("R10") }
 func R12() Rule          { return stub("R12") }
 func R17() Rule          { return stub("R17") }
-func R18() Rule          { return stub("R18") }
-func R19(g string) Rule  { return stub("R19") }
 func R21() Rule          { return stub("R21") }
 func R22() Rule          { return stub("R22") }
 func R23() Rule          { return stub("R23") }
 func R24() Rule          { return stub("R24") }
 func R25() Rule          { return stub("R25") }
-func R26() Rule          { return stub("R26") }
 func R27() Rule          { return stub("R27") }
-func R28() Rule          { return stub("R28") }
 func R29() Rule          { return stub("R29") }
-func R30() Rule          { return stub("R30") }
-func R31() Rule          { return stub("R31") }
